@@ -131,6 +131,16 @@ func (fs *fsMutable) deleteNSEntry(p fuseops.InodeID, c string) error {
 	children := fs.readDirMap[p]
 	// Delete from parent read dir
 	delete(children, cLE.iNode)
+
+	// The inode is no longer linked: it goes away with the last reference of the kernel.
+	cNode.lock.Lock()
+	cNode.unlinked = true
+	gone := cNode.refCount == 0
+	cNode.lock.Unlock()
+	if gone {
+		fs.iNodeStore, _, _ = fs.iNodeStore.Delete(formKey(cLE.iNode))
+		fs.iNodeGenerator.freeINode(cLE.iNode)
+	}
 	return nil
 }
 
@@ -735,17 +745,9 @@ func getPathToBackingFile(iNode fuseops.InodeID) string {
 }
 
 func shouldDelete(n *nodeEntry) bool {
-	// LookupCount should be zero.
-	if n.attr.Mode.IsDir() {
-		if n.refCount == 0 {
-			return true
-		}
-	} else {
-		if n.refCount == 0 && n.attr.Nlink == 0 {
-			return true
-		}
-	}
-	return false
+	// LookupCount should be zero and the node must not be linked any more:
+	// an entry the kernel has merely forgotten can be looked up again.
+	return n.refCount == 0 && n.unlinked
 }
 
 type commitChans struct {
